@@ -244,6 +244,11 @@ def _duration_new(ctx) -> None:
 def _abs_new(ctx) -> None:
     m = pmod("duration")
     fn = m.func("AbsoluteDuration.__new__")
+    # the state handed to the class by pickle / copy (`self.__class__, (positional values in Duration's order)`) and every positional call
+    # made through `self.__class__(...)` bind by position: a subclass constructor must list the components in the order of Duration's
+    base_p, sub_p = core.params(m.func("Duration.__new__")), core.params(fn)
+    ctx.ob("SIGNATURE.subclass", "AbsoluteDuration.__new__", sub_p == base_p,
+           f"AbsoluteDuration.__new__{tuple(sub_p)} vs Duration.__new__{tuple(base_p)}: the same components in the same order (a swapped pair is rebuilt swapped by copy / pickle)", m.loc(fn))
     can = Canon(consts=_consts(m))
     tab = _new_tabulate(ctx, m, fn, "AbsoluteDuration", True)
 
